@@ -19,15 +19,26 @@ func init() { heavyGens = append(heavyGens, genAccess) }
 
 func c20Str(s string) string { return `"` + strings.ReplaceAll(s, `"`, `""`) + `"` }
 
+const accessHeader = "(* generated from /repo/{hub,ship,ws,mdns,api}/*.go by harness/cmd/extract (internal/lockset) — do not edit *)\n" +
+	"From Coq Require Import List String NArith.\nFrom Ship Require Import Lockset.\nImport ListNotations.\nOpen Scope string_scope.\n\n"
+
+func accessFallback(why string) string {
+	return accessHeader + "(* analysis failed: " + strings.ReplaceAll(why, "*)", "* )") + " *)\n" +
+		"Definition access_extract_ok : bool := false.\nDefinition access_unresolved : list string := [].\nDefinition access_fields : list (string * string) := [].\nDefinition access_facts : list fact := [].\n"
+}
+
 func genAccess() {
+	// fail closed: if the analysis does not come back (extract's heavy-generator deadline)
+	// or fails, the table says "not extracted" and C20's obligations break
+	if old, err := os.ReadFile(filepath.Join(*out, "Access.v")); err != nil || len(old) == 0 {
+		writeIfChanged("Access.v", accessFallback("not finished"))
+	}
 	res, err := lockset.Analyze(*repo)
 	var sb strings.Builder
-	sb.WriteString("(* generated from /repo/{hub,ship,ws,mdns,api}/*.go by harness/cmd/extract (internal/lockset) — do not edit *)\n")
-	sb.WriteString("From Coq Require Import List String NArith.\nFrom Ship Require Import Lockset.\nImport ListNotations.\nOpen Scope string_scope.\n\n")
+	sb.WriteString(accessHeader)
 	if err != nil {
-		fmt.Fprintf(&sb, "(* analysis failed: %s *)\n", strings.ReplaceAll(err.Error(), "*)", "* )"))
-		sb.WriteString("Definition access_extract_ok : bool := false.\nDefinition access_unresolved : list string := [].\nDefinition access_facts : list fact := [].\n")
-		writeIfChanged("Access.v", sb.String())
+		writeIfChanged("Access.v", accessFallback(err.Error()))
+		_ = os.Remove(filepath.Join(*out, "Access.sites.json"))
 		return
 	}
 	sb.WriteString("Definition access_extract_ok : bool := true.\n\n")
@@ -38,6 +49,20 @@ func genAccess() {
 			sb.WriteString("; ")
 		}
 		sb.WriteString(c20Str(u))
+	}
+	sb.WriteString("].\n\n")
+	sb.WriteString("(* the data fields of the tracked structs *)\nDefinition access_fields : list (string * string) := [")
+	first := true
+	for _, p := range lockset.Packages {
+		for _, st := range lockset.Tracked[p] {
+			for _, f := range res.Structs[st] {
+				if !first {
+					sb.WriteString("; ")
+				}
+				first = false
+				sb.WriteString("(" + c20Str(st) + ", " + c20Str(f) + ")")
+			}
+		}
 	}
 	sb.WriteString("].\n\n")
 	fmt.Fprintf(&sb, "(* %d facts; %d functions, %d analysis contexts, %d goroutine entry points *)\n", len(res.Facts), res.Funcs, res.Contexts, res.GoBodies)
